@@ -27,7 +27,7 @@ private def parseItem (t : String) : Option ItemCfg :=
 private def parseOp (idx : Nat) (t : String) : Option (Op Cell) :=
   let blk (n : Nat) : Blk Cell := ⟨n, fun j => Cell.d idx j⟩
   match t.splitOn "." with
-  | ["P", i, n] => do pure (.writePvp (← i.toNat?) (blk (← n.toNat?)))
+  | ["P", i, n] => do pure (.writePvp (← i.toNat?) (blk (← n.toNat?)) idx)       -- the AmpSF column of a PVP write is named by the op number
   | ["S", j, n] => do pure (.writeSup (← j.toNat?) (blk (← n.toNat?)))
   | ["G", i, r0, n, raw] => do pure (.writeSig (← i.toNat?) (← r0.toNat?) (blk (← n.toNat?)) (raw == "1"))
   | ["F"] => some .flush
@@ -73,7 +73,8 @@ private def runs (rdp : Nat → Cell) (n : Nat) : List String := Id.run do
 
 /-- `wrun inMem ampSF hdrLen termLen xmlOff xmlLen nchan nsup items ops`
       items : `kind:off:size:rows:rowBytes,...` (kind p|s|g, in table order)      ops : `P.i.len;S.j.len;G.i.r0.len.raw;F;C`
-    → `outs | foLog | mmLog | flags (written.bytes.count.canReg per item) | closed hdrWritten pos fileLen | runs` -/
+    → `outs | foLog | mmLog | flags (written.bytes.count.canReg per item) | closed hdrWritten pos fileLen | runs |
+       per channel: installed AmpSF tag / formatted chunks oldest first as firstRow:rows:tag` (tag = number of the PVP op, N = none) -/
 def cphdwStep (toks : List String) : Option String :=
   match toks with
   | ["wrun", im, amp, hl, tl, xo, xl, nc, ns, items, ops] => do
@@ -89,12 +90,17 @@ def cphdwStep (toks : List String) : Option String :=
       let e := s.el k
       s!"{if e.written then 1 else 0}.{if e.bytes.isSome then 1 else 0}.{e.count}.{if e.canReg then 1 else 0}")
     let n := fileLen c s
+    let showA (a : Option Nat) : String := match a with | some v => toString v | none => "N"
+    let amps := (List.range c.nchan).map (fun i =>
+      let e := s.el (c.sigIdx i)
+      showA e.amp ++ "/" ++ (if e.scaled.isEmpty then "-" else ",".intercalate (e.scaled.reverse.map (fun t => s!"{t.1}:{t.2.1}:{showA t.2.2}"))))
     pure (" | ".intercalate [
       (if os.isEmpty then "-" else ",".intercalate (os.map showOut)),
       showLog (foLog s), showLog (mmLog s),
       (if flags.isEmpty then "-" else ",".intercalate flags),
       s!"{if s.closed then 1 else 0} {if s.hdrWritten then 1 else 0} {s.pos} {n}",
-      " ".intercalate (runs (rd c s) n)])
+      " ".intercalate (runs (rd c s) n),
+      (if amps.isEmpty then "-" else " ".intercalate amps)])
   | _ => none
 
 /-! the regenerated kernels, run on the same inputs as the hand model (three-way comparison Python / Gen / Spec) -/
